@@ -39,7 +39,9 @@ def _lens(rng, F):
 
 
 def gen_acl(rng, tier, seed):
-    geo = [27, 27, 28, 31, 64, 251, 1021, 65535, rng.randint(27, 400)]
+    # (lengths below 27 are outside the range the specification allows a controller to report, but a host that is told 9 must
+    # still not emit 10: the clause is about the length the controller announced)
+    geo = [27, 27, 28, 31, 64, 251, 1021, 65535, rng.randint(27, 400), rng.choice([27, 23, 16, 9, 5])]
     ctrl = []
     for _ in range(2):
         ctrl.append({
